@@ -208,7 +208,17 @@ fn main() {
             rep
         }
         "C05" => p_file::run_files("C05", eff_tier, seed, &model, corpus_lines, &work),
-        "C14" => p_file::run_files("C14", eff_tier, seed, &model, corpus_lines, &work),
+        "C14" => {
+            // memory-mapped writes, then the unchecked histogram index of the coverage vectors
+            let (cov_corpus, _rest): (Vec<Case>, Vec<Case>) = corpus.into_iter().partition(|c| c.kind == "cov");
+            let mut rep = p_file::run_files("C14", eff_tier, seed, &model, corpus_lines, &work);
+            let mut cov = Report::new("C14");
+            let mut rng = util::Rng::new(seed ^ 0xC14);
+            p_vec::run_c08_one(eff_tier, &mut rng, &model, &mut cov, cov_corpus);
+            cov.rules.push("coverage histogram: CovComputer::vectorise_one with multiplicities at and around bin-size x bin-count and up to u32::MAX (the unchecked index must stay below bin-count)".into());
+            rep.merge(cov);
+            rep
+        }
         "C07" => p_count::run_c07(eff_tier, seed, &model, corpus_lines, &work),
         "C10" => p_minfile::run_c10(eff_tier, seed, &model, corpus_lines, &work),
         "C13" => p_py::run_c13(eff_tier, seed, &model, corpus_lines, &pymod, &work),
